@@ -41,7 +41,7 @@ VARIANTS = (
 
 CLASSES = ["generic", "hermitian", "hermitian_repeat", "upper_tri", "normal", "rank1", "rank2", "int", "diag", "scaled_small", "scaled_big",
            "hermitian_psd", "scaled_huge", "int_big", "hermitian_big", "sparse", "sparse_hermitian",
-           "hess_axis_subdiag", "tri_plus_one_subdiag", "hess_tiny_axis_subdiag"]
+           "hess_axis_subdiag", "tri_plus_one_subdiag", "hess_tiny_axis_subdiag", "block_upper_tri", "hollow_int"]
 
 
 def vname(fn, kw):
@@ -116,6 +116,21 @@ def make(rng, cls, n):
             v[(ax0 + t) % 4] = mag * float(rng.choice([-1.0, 1.0])) * (0.5 + rng.random())
             c[i, i - 1] = v
         A = refq.qa(c)
+    elif cls == "block_upper_tri":
+        # reducible: dense leading block, exact zero block below it (a deflation that exists before the first sweep, not at the bottom)
+        c = rng.standard_normal((n, n, 4))
+        p_ = max(1, n // 2)
+        c[p_:, :p_] = 0.0
+        A = refq.qa(c)
+    elif cls == "hollow_int":
+        # integer matrix with an exactly zero diagonal (adjacency-like; Hermitian half of the time): zero Rayleigh quotients / leading entries
+        A = gen.entries(rng, "int", n, n)
+        if rng.random() < 0.5:
+            A = A + refq.herm(A)
+            herm = True
+        cc = refq.fa(A).copy()
+        cc[np.arange(n), np.arange(n)] = 0.0
+        A = refq.qa(cc)
     elif cls == "diag":
         A = gen.structured(rng, "diag", n, n)
     elif cls == "scaled_small":
